@@ -177,14 +177,7 @@ def rule_rec(ctx):
            "upload: the destination directory itself is not created", construct="upload:top mkdir")
     # download: every dir/file child is downloaded
     for loop in [x for x in walk_no_nested(dn) if isinstance(x, (ast.For, ast.AsyncFor)) and any(is_self_call(c, {"list"}) for c in ast.walk(x.iter))]:
-        kinds = set()
-        for i in walk_no_nested(loop):
-            if isinstance(i, ast.If) and isinstance(i.test, ast.Compare) and isinstance(i.test.ops[0], (ast.In, ast.Eq)):
-                try:
-                    v = ast.literal_eval(i.test.comparators[0])
-                    kinds |= set(v) if isinstance(v, (tuple, list, set)) else {v}
-                except Exception:
-                    pass
+        kinds = kinds_reaching(p, dn, loop, lambda c: is_self_call(c, {"download"}))
         ctx.ob("C09.REC", loop, f"download: recursion covers children of kinds {sorted(kinds)}", {"dir", "file"} <= kinds,
                f"download recurses only into children of kinds {sorted(kinds)}", construct=f"download:kinds={sorted(kinds)}")
         eager = isinstance(loop, ast.For) and isinstance(loop.iter, ast.Await)
@@ -245,6 +238,19 @@ def rule_list(ctx):
     ctx.floor("C09.LIST", 6)
 
 
+def kinds_reaching(p, fn, loop, is_rec):
+    """entry kinds ('dir', 'file', 'link') for which a recursive call inside `loop` is reachable: the tests on <info>["type"] that
+    enclose or guard the call are evaluated for each kind (tests on anything else count as satisfiable)"""
+    texprs = {src(x) for x in ast.walk(loop) if isinstance(x, ast.Subscript) and isinstance(x.slice, ast.Constant) and x.slice.value == "type"}
+    calls = [c for b in loop.body for c in walk_self(b) if isinstance(c, ast.Call) and is_rec(c)]
+    kinds = set()
+    for kind in ("dir", "file", "link"):
+        env = {t: kind for t in texprs}
+        if any(reachable_under(p, c, loop, env) is not False for c in calls):   # guards inside the loop only
+            kinds.add(kind)
+    return kinds
+
+
 def rule_rm(ctx):
     p = ctx.p
     ctx.rule("C09.RM", "remove: recurse into every dir/file child (by its own path) before removing the directory itself")
@@ -253,14 +259,7 @@ def rule_rm(ctx):
     if not loops:
         raise Inconclusive("C09.RM: the child loop of remove() was not found")
     n = loops[0]
-    kinds = set()
-    for i in walk_no_nested(n):
-        if isinstance(i, ast.If) and isinstance(i.test, ast.Compare) and isinstance(i.test.ops[0], (ast.In, ast.Eq)):
-            try:
-                v = ast.literal_eval(i.test.comparators[0])
-                kinds |= set(v) if isinstance(v, (tuple, list, set)) else {v}
-            except Exception:
-                pass
+    kinds = kinds_reaching(p, rm, n, lambda c: is_self_call(c, {"remove"}))
     ctx.ob("C09.RM", n, f"remove recurses into children of kinds {sorted(kinds)}", {"dir", "file"} <= kinds, f"remove recurses only into children of kinds {sorted(kinds)}", construct=f"remove:kinds={sorted(kinds)}")
     tv = n.target.elts[0].id if isinstance(n.target, ast.Tuple) and isinstance(n.target.elts[0], ast.Name) else None
     rec = [c for c in walk_no_nested(n) if is_self_call(c, {"remove"})]
